@@ -171,6 +171,9 @@ impl T {
         o
     }
 }
+pub fn has_kind(seg: &ErasedSegment, kind: sqruff_lib_core::dialects::syntax::SyntaxKind) -> bool {
+    seg.get_type() == kind || seg.segments().iter().any(|c| has_kind(c, kind))
+}
 pub fn ids_unique(t: &T) -> bool {
     let mut v = vec![];
     t.all_ids(&mut v);
@@ -379,6 +382,130 @@ pub fn collapse(toks: &[(u8, String)]) -> String {
     })
 }
 
+// ------------------------------------------------------------------ gap variations
+/// An input seen as non-whitespace tokens and the gaps around them (`gaps.len() == toks.len() + 1`:
+/// before the first token, between neighbours — possibly empty —, after the last token).
+pub struct Gapped {
+    pub toks: Vec<(u8, String)>,
+    pub gaps: Vec<String>,
+}
+/// The shapes a gap is given: nothing, one space, a line break with the next token at column 0,
+/// an empty line, a line break with an indented next token, several spaces.
+pub const GAP_SHAPES: &[&str] = &["", " ", "\n", "\n\n", "\n    ", "   "];
+fn is_inline_comment(t: &(u8, String)) -> bool {
+    t.0 == 1 && (t.1.starts_with("--") || t.1.starts_with('#') || t.1.starts_with("//"))
+}
+fn is_word_byte(b: u8) -> bool {
+    b.is_ascii_alphanumeric() || b == b'_' || b >= 0x80
+}
+pub fn gapped(toks: &[(u8, String)]) -> Gapped {
+    let mut g = Gapped { toks: vec![], gaps: vec![String::new()] };
+    for t in toks {
+        if t.0 == 2 && is_ws_text(&t.1) {
+            g.gaps.last_mut().unwrap().push_str(&t.1);
+        } else {
+            g.toks.push(t.clone());
+            g.gaps.push(String::new());
+        }
+    }
+    g
+}
+impl Gapped {
+    /// The text with some gaps overridden. A gap that follows an inline comment keeps a line break.
+    pub fn render(&self, over: &[(usize, &str)]) -> String {
+        let mut out = String::new();
+        for i in 0..self.gaps.len() {
+            let shape: &str = over.iter().find(|o| o.0 == i).map(|o| o.1).unwrap_or(self.gaps[i].as_str());
+            if i > 0 && is_inline_comment(&self.toks[i - 1]) && !shape.contains('\n') {
+                out.push('\n');
+            }
+            out.push_str(shape);
+            if i < self.toks.len() {
+                out.push_str(&self.toks[i].1);
+            }
+        }
+        out
+    }
+    /// Is `shape` worth trying at gap `i`? Not the shape it has; not the fusion of two words.
+    fn admits(&self, i: usize, shape: &str) -> bool {
+        if self.gaps[i] == shape {
+            return false;
+        }
+        if shape.is_empty() && i > 0 && i < self.toks.len() {
+            let l = self.toks[i - 1].1.as_bytes().last().copied().unwrap_or(b' ');
+            let r = self.toks[i].1.as_bytes().first().copied().unwrap_or(b' ');
+            if is_word_byte(l) && is_word_byte(r) {
+                return false;
+            }
+        }
+        true
+    }
+    /// Gaps next to a separator of sibling constructs: after `,` `)` `;`, before `,` `;`, and the two ends of the file.
+    pub fn separator_gaps(&self) -> Vec<usize> {
+        let n = self.toks.len();
+        (0..=n)
+            .filter(|&i| {
+                i == 0
+                    || i == n
+                    || matches!(self.toks[i - 1].1.as_str(), "," | ")" | ";")
+                    || matches!(self.toks[i].1.as_str(), "," | ";")
+            })
+            .collect()
+    }
+    pub fn all_gaps(&self) -> Vec<usize> {
+        (0..=self.toks.len()).collect()
+    }
+    /// Every single-gap deviation: each gap of `which` given each other shape.
+    pub fn vary1(&self, which: &[usize]) -> Vec<String> {
+        let mut v = vec![];
+        for &i in which {
+            for s in GAP_SHAPES {
+                if self.admits(i, s) {
+                    v.push(self.render(&[(i, s)]));
+                }
+            }
+        }
+        v
+    }
+    /// Every two-gap deviation over `which`: the sites of one construct list get different shapes.
+    pub fn vary2(&self, which: &[usize]) -> Vec<String> {
+        let mut v = vec![];
+        for (a, &i) in which.iter().enumerate() {
+            for &j in &which[a + 1..] {
+                for s in GAP_SHAPES {
+                    for t in GAP_SHAPES {
+                        if self.admits(i, s) && self.admits(j, t) {
+                            v.push(self.render(&[(i, s), (j, t)]));
+                        }
+                    }
+                }
+            }
+        }
+        v
+    }
+}
+
+/// Statements with several sibling constructs that a layout rule visits one after the other in one
+/// evaluation (CTEs, select targets, set operators, statements, function calls, operators, WHEN
+/// branches, value tuples): the inputs of the two-gap variations.
+pub const SIBLING_PROBES: &[(&str, &str)] = &[
+    ("ansi", "WITH a AS (SELECT 1), b AS (SELECT 2), c AS (SELECT 3) SELECT * FROM a, b, c\n"),
+    ("ansi", "WITH a AS (SELECT 1) -- c1\n, b AS (SELECT 2) /* c2 */, c AS (SELECT 3) SELECT * FROM a\n"),
+    ("ansi", "WITH a AS (SELECT 1), b AS (WITH c AS (SELECT 2), d AS (SELECT 3) SELECT * FROM c) SELECT * FROM a\n"),
+    ("ansi", "SELECT a, b, c FROM t UNION SELECT d, e, f FROM u UNION ALL SELECT g, h, i FROM v\n"),
+    ("ansi", "SELECT 1; SELECT 2; SELECT 3;\n"),
+    ("ansi", "SELECT DISTINCT a, b FROM t; SELECT DISTINCT c, d FROM u;\n"),
+    ("ansi", "SELECT f (a), g (b, c), h (d) FROM t\n"),
+    ("ansi", "SELECT a + b - c * d, e || f || g FROM t WHERE a = 1 AND b = 2 OR c = 3\n"),
+    ("ansi", "SELECT CASE WHEN a THEN 1 WHEN b THEN 2 ELSE 3 END, CASE WHEN c THEN 4 END FROM t\n"),
+    ("ansi", "INSERT INTO t (a, b, c) VALUES (1, 2, 3), (4, 5, 6), (7, 8, 9)\n"),
+    ("ansi", "SELECT a FROM t JOIN u ON t.a = u.a JOIN v ON u.b = v.b WHERE a IN (1, 2, 3) ORDER BY a, b DESC, c\n"),
+    ("ansi", "CREATE TABLE t (a INT, b INT, c INT); CREATE TABLE u AS WITH x AS (SELECT 1), y AS (SELECT 2) SELECT * FROM x\n"),
+    ("postgres", "WITH a AS (SELECT 1), b AS (SELECT 2) INSERT INTO t SELECT * FROM a, b; WITH c AS (SELECT 3), d AS (SELECT 4) SELECT * FROM c\n"),
+    ("bigquery", "WITH a AS (SELECT 1), b AS (SELECT 2) SELECT * EXCEPT (x), ARRAY(SELECT 1), STRUCT(1 AS a, 2 AS b) FROM a, b\n"),
+    ("snowflake", "WITH a AS (SELECT 1), b AS (SELECT 2) SELECT a:b::string, c[0] FROM a, b QUALIFY ROW_NUMBER() OVER (PARTITION BY a ORDER BY b) = 1\n"),
+];
+
 // ------------------------------------------------------------------ configurations
 pub struct LayoutCfg {
     pub name: &'static str,
@@ -418,11 +545,51 @@ pub fn linter<'a>(ls: &'a mut Linters, dialect: &str, rules: &str, cfg: &'static
     ls.entry((dialect.to_string(), rules.to_string(), cfg.name.to_string())).or_insert_with(|| mk_linter(dialect, rules, cfg))
 }
 
+/// A linter with the configuration of `base` and another rule selection (the `rules` key of the
+/// `[sqruff]` section and the allow-list `FluffConfig::new` derives from it), without expanding the
+/// dialect grammar again. `selection_equals_configured` ties it to a linter built from the source text.
+pub fn with_rules(base: &Linter, rules: &str) -> Linter {
+    use sqruff_lib::core::config::Value as CV;
+    let mut c = base.config().clone();
+    if let Some(core) = c.raw.get_mut("core").and_then(|v| v.as_map_mut()) {
+        core.insert("rules".into(), CV::String(rules.into()));
+        core.insert("rule_allowlist".into(), CV::Array(rules.split(',').map(|r| CV::String(r.trim().into())).collect()));
+    }
+    Linter::new(c, None, None, true)
+}
+/// Per-thread state: the expensive linters (`rules = layout`) and the cheap re-selections of them.
+#[derive(Default)]
+pub struct St {
+    pub ls: Linters,
+    pub sel: Linters,
+}
+pub fn linter_for<'a>(st: &'a mut St, dialect: &str, rules: &str, cfg: &'static LayoutCfg) -> &'a Linter {
+    if rules == "layout" {
+        return linter(&mut st.ls, dialect, rules, cfg);
+    }
+    let key = (dialect.to_string(), rules.to_string(), cfg.name.to_string());
+    if !st.sel.contains_key(&key) {
+        let l = with_rules(linter(&mut st.ls, dialect, "layout", cfg), rules);
+        if st.sel.len() >= 8 {
+            st.sel.clear();
+        }
+        st.sel.insert(key.clone(), l);
+    }
+    &st.sel[&key]
+}
+/// The codes of the layout rules.
+pub const LAYOUT_RULES: &[&str] = &["LT01", "LT02", "LT03", "LT04", "LT05", "LT06", "LT07", "LT08", "LT09", "LT10", "LT11", "LT12", "LT13"];
+
 // ------------------------------------------------------------------ one item
 pub struct Item {
     pub cls: &'static str,
     pub dialect: String,
     pub cfg: &'static LayoutCfg,
+    /// the rule selection: `layout`, or layout rule codes
+    pub rules: String,
+    /// > 0: after the run, run the input again under each rule that proposed fixes, selected alone
+    /// (1: LT02 alone only for the probes; 2: always)
+    pub each_alone: u8,
     pub sql: String,
     pub emit_cases: bool,
     /// > 0: do not lint; parse and drive `apply_fixes` directly with this many synthetic batches
@@ -432,18 +599,82 @@ pub struct Item {
 const MAX_CASE_LEAVES: usize = 260;
 const MAX_RUN_LEAVES: usize = 120;
 
-fn run_one(ls: &mut Linters, it: &Item, out: &mut Buf) {
+fn run_one(st: &mut St, it: &Item, out: &mut Buf) {
     if it.synth > 0 {
-        return run_synth(ls, it, out);
+        return run_synth(&mut st.ls, it, out);
     }
-    let lt = linter(ls, &it.dialect, "layout", it.cfg);
-    let input = json!({"dialect": it.dialect, "cfg": it.cfg.name, "sql": it.sql});
+    let fired = run_fix(st, it, out);
+    if it.each_alone > 0 {
+        // "only layout rules selected" also means fewer of them: a rule selected alone meets the input
+        // as written, not as the rules before it in the pack have left it
+        for rule in fired {
+            // LT01 is first in the pack: alone it repeats its first evaluation. LT02 (second, pure
+            // re-indentation through the reflow engine) proposes fixes for nearly every input: it is
+            // run alone on the probes only unless `each_alone` asks for all (thorough tier).
+            if rule == "LT01" || (rule == "LT02" && it.each_alone == 1 && it.cls != "probe") {
+                continue;
+            }
+            let solo = Item { cls: "alone", dialect: it.dialect.clone(), cfg: it.cfg, rules: rule.to_string(), each_alone: 0, sql: it.sql.clone(), emit_cases: false, synth: 0 };
+            run_fix(st, &solo, out);
+        }
+    }
+    compact(out);
+}
+
+/// The buffers of all items live until the end of the run: drop the examples of the monitor
+/// evaluations that held (only a failing one is ever shown) and merge the counters.
+fn compact(out: &mut Buf) {
+    let mut counts: Vec<(String, u64)> = vec![];
+    let mut n_ok: Vec<(String, u64)> = vec![];
+    let mut kept: Vec<Value> = vec![];
+    for mut l in std::mem::take(&mut out.lines) {
+        match l["t"].as_str().unwrap_or("") {
+            "count" => {
+                let (name, n) = (l["name"].as_str().unwrap_or("").to_string(), l["n"].as_u64().unwrap_or(0));
+                match counts.iter_mut().find(|c| c.0 == name) {
+                    Some(c) => c.1 += n,
+                    None => counts.push((name, n)),
+                }
+            }
+            "hyp1" if l["ok"].as_bool().unwrap_or(false) => {
+                l["example"] = Value::Null;
+                kept.push(l);
+            }
+            "direct_ok" => {
+                let cls = l["cls"].as_str().unwrap_or("").to_string();
+                match n_ok.iter_mut().find(|c| c.0 == cls) {
+                    Some(c) => c.1 += 1,
+                    None => n_ok.push((cls, 1)),
+                }
+                kept.push(l);
+            }
+            _ => kept.push(l),
+        }
+    }
+    let _ = n_ok;
+    out.lines = kept;
+    for (name, n) in counts {
+        out.count(&name, n as usize);
+    }
+}
+
+/// One fix run with every observation; returns the rules that proposed fixes.
+fn run_fix(st: &mut St, it: &Item, out: &mut Buf) -> Vec<&'static str> {
+    let lt = linter_for(st, &it.dialect, &it.rules, it.cfg);
+    let input = if it.rules == "layout" {
+        json!({"dialect": it.dialect, "cfg": it.cfg.name, "sql": it.sql})
+    } else {
+        json!({"dialect": it.dialect, "cfg": it.cfg.name, "rules": it.rules, "sql": it.sql})
+    };
+    if it.rules != "layout" {
+        out.count("inputs_with_rule_subset", 1);
+    }
     out.count("inputs", 1);
     let src_toks = match lex_tokens(lt, &it.sql) {
         Ok(t) => t,
         Err(_) => {
             out.count("skipped_unlexable_source", 1);
-            return;
+            return vec![];
         }
     };
     install_hook();
@@ -457,12 +688,12 @@ fn run_one(ls: &mut Linters, it: &Item, out: &mut Buf) {
         Err(_) => {
             // a crash of fix is C03's subject; nothing to observe for C06
             out.count("skipped_fix_panicked", 1);
-            return;
+            return vec![];
         }
     };
     let (Some(start), Some(end)) = (rec.start.as_ref(), rec.end.as_ref()) else {
         out.count("skipped_no_tree", 1);
-        return;
+        return vec![];
     };
     let t0 = conv(start);
     let tf = conv(end);
@@ -492,6 +723,21 @@ fn run_one(ls: &mut Linters, it: &Item, out: &mut Buf) {
         eprintln!("FIXED: {:?}", fixed);
     }
     let hkey = fnv(&it.sql);
+    let unparsable = has_kind(start, sqruff_lib_core::dialects::syntax::SyntaxKind::Unparsable);
+    if unparsable {
+        out.count("inputs_with_unparsable_section", 1);
+    }
+    let mut input = input;
+    if unparsable {
+        input["unparsable_section"] = json!(true);
+    }
+    let input = input;
+    let mut fired: Vec<&'static str> = vec![];
+    for b in &rec.batches {
+        if !fired.contains(&b.rule) {
+            fired.push(b.rule);
+        }
+    }
     out.hyp("parsed_tree_spells_source", "blocking", t0.raw() == it.sql.replace("\r\n", "\n"), json!({"input": input}));
     out.hyp("parsed_tree_holds_lexed_tokens", "blocking", t0.code_seq() == code_of(&src_toks) && t0.comments_sorted() == comments_of(&src_toks), json!({"input": input}));
     out.count("batches", rec.batches.len());
@@ -519,6 +765,15 @@ fn run_one(ls: &mut Linters, it: &Item, out: &mut Buf) {
         }
         all_ok &= m.all();
         out.count(&format!("batches_{}", b.rule), 1);
+        {
+            // which edit types one evaluation of the rule mixes (coverage of the rules' hand-built fixes)
+            let mut kinds: Vec<&str> = b.fixes.iter().map(|f| etype_g(f.edit_type)).collect();
+            kinds.sort();
+            kinds.dedup();
+            if kinds.len() >= 2 {
+                out.count(&format!("mixed_batches_{}_{}", b.rule, kinds.join("+")), 1);
+            }
+        }
         convs.push((before, after));
     }
     // ---- the loop threads the tree as the model says: the next batch starts from the previous
@@ -606,6 +861,7 @@ fn run_one(ls: &mut Linters, it: &Item, out: &mut Buf) {
             }
         }
     }
+    fired
 }
 
 
@@ -794,12 +1050,23 @@ pub const CFG_PROBES: &[(&str, &str, &str)] = &[
     ("sparksql", "maxlen40", "SELECT /*+ COALESCE(3) */ a, b, c FROM t; SELECT /*+ REPARTITION(3) */ a, b, c FROM t; -- multiple partitioning hints\nSELECT /*+ REBALANCE */ a, b, c FROM t;\n"),
     ("postgres", "default", "drop procedure delete_actor, update_actor CASCADE;\n"),
     ("postgres", "maxlen20-after", "drop procedure delete_actor,\nupdate_actor\nCASCADE;\n"),
+    // LT09, single select target followed by a trailing comma / an unparsable remainder: the target was
+    // re-inserted after SELECT and also moved, with everything up to the last whitespace, behind the clause
+    ("bigquery", "default", "SELECT\n    c1\n    ,\n"),
+    ("ansi", "default", "SELECT\n    c1,\n{{ \"c2\" }}\n"),
+    ("ansi", "default", "SELECT a . b(5,\n    10)\n"),
     ("snowflake", "default", "CREATE OR REPLACE EXTERNAL FUNCTION f(a VARCHAR) RETURNS VARIANT API_INTEGRATION = x REQUEST_TRANSLATOR = db.s.fn RESPONSE_TRANSLATOR = db.s.fn2 AS 'https://x/y';\n"),
 ];
 
 pub fn main(args: &Args) {
     silence_panics();
-    let mut out = Out::new(&args.out);
+    // `--chunk k/n`: this process is a child of the run (see the end of this function)
+    let chunk: Option<(usize, usize)> = args.flag("--chunk").and_then(|s| {
+        let (k, n) = s.split_once('/')?;
+        Some((k.parse().ok()?, n.parse().ok()?))
+    });
+    let replaying = args.flag("--replay-input").is_some();
+    let mut out = Out::new(if chunk.is_some() { std::path::Path::new("/dev/null") } else { &args.out });
     let mut rng = Rng::new(args.seed);
     let mut items: Vec<Item> = vec![];
 
@@ -811,6 +1078,8 @@ pub fn main(args: &Args) {
             dialect: v["dialect"].as_str().unwrap_or("ansi").to_string(),
             cfg: layout_cfg_by_name(v["cfg"].as_str().unwrap_or("default")),
             sql: v["sql"].as_str().unwrap_or("").to_string(),
+            rules: v["rules"].as_str().unwrap_or("layout").to_string(),
+            each_alone: 0,
             emit_cases: true,
             synth: v["synth"].as_u64().unwrap_or(0) as usize,
         });
@@ -820,11 +1089,11 @@ pub fn main(args: &Args) {
                 continue;
             }
             for cfg in LAYOUT_CFGS.iter().take(if args.thorough() { LAYOUT_CFGS.len() } else { 4 }) {
-                items.push(Item { cls: "probe", dialect: d.to_string(), cfg, sql: sql.to_string(), emit_cases: true, synth: 0 });
+                items.push(Item { cls: "probe", dialect: d.to_string(), cfg, sql: sql.to_string(), rules: "layout".to_string(), each_alone: if args.thorough() { 2 } else { 1 }, emit_cases: true, synth: 0 });
             }
         }
         for (d, c, sql) in CFG_PROBES {
-            items.push(Item { cls: "probe", dialect: d.to_string(), cfg: layout_cfg_by_name(c), sql: sql.to_string(), emit_cases: true, synth: 0 });
+            items.push(Item { cls: "probe", dialect: d.to_string(), cfg: layout_cfg_by_name(c), sql: sql.to_string(), rules: "layout".to_string(), each_alone: if args.thorough() { 2 } else { 1 }, emit_cases: true, synth: 0 });
         }
         let corpus = corpus();
         // per-thread lexers are needed for the perturbations: build them here, single-threaded, with throwaway linters
@@ -850,7 +1119,7 @@ pub fn main(args: &Args) {
             if f.text.len() < 600 && synth_budget > 0 {
                 let n = if args.thorough() { 12 } else { 6 };
                 synth_budget = synth_budget.saturating_sub(n);
-                items.push(Item { cls: "synth", dialect: f.dialect.clone(), cfg: &LAYOUT_CFGS[0], sql: f.text.clone(), emit_cases: true, synth: n });
+                items.push(Item { cls: "synth", dialect: f.dialect.clone(), cfg: &LAYOUT_CFGS[0], sql: f.text.clone(), rules: "layout".to_string(), each_alone: 0, emit_cases: true, synth: n });
             }
             for (cls, sql) in variants {
                 for j in 0..n_cfg_per_file {
@@ -859,12 +1128,181 @@ pub fn main(args: &Args) {
                     if emit {
                         case_budget -= 1;
                     }
-                    items.push(Item { cls, dialect: f.dialect.clone(), cfg, sql: sql.clone(), emit_cases: emit, synth: 0 });
+                    items.push(Item { cls, dialect: f.dialect.clone(), cfg, sql: sql.clone(), rules: "layout".to_string(), each_alone: if cls == "corpus" { 1 } else { 0 }, emit_cases: emit, synth: 0 });
                 }
             }
         }
+
+        // ---- gap variations: the same tokens with one or two gaps given another shape, so that the
+        // sites a rule visits in one evaluation (CTE after CTE, target after target, ...) differ in
+        // what surrounds them — space here, line break there, nothing at a third place
+        let mut seen: HashSet<(String, &'static str, String)> = HashSet::new();
+        let mut gap_case_budget = if args.thorough() { [200usize; 3] } else { [25usize; 3] };
+        let mut n_gap = [0usize; 3];
+        let mut push = |items: &mut Vec<Item>, rng: &mut Rng, cls: &'static str, k: usize, d: &str, cfg: &'static LayoutCfg, sql: String, other_cfg_1_in: usize| {
+            let mut cfgs = vec![cfg];
+            if other_cfg_1_in > 0 && rng.chance(1, other_cfg_1_in) {
+                cfgs.push(&LAYOUT_CFGS[rng.below(LAYOUT_CFGS.len())]);
+            }
+            for cfg in cfgs {
+                if sql.trim().is_empty() || !seen.insert((d.to_string(), cfg.name, sql.clone())) {
+                    continue;
+                }
+                let emit = gap_case_budget[k] > 0 && n_gap[k] % 23 == 0;
+                if emit {
+                    gap_case_budget[k] -= 1;
+                }
+                n_gap[k] += 1;
+                items.push(Item { cls, dialect: d.to_string(), cfg, sql: sql.clone(), rules: "layout".to_string(), each_alone: if args.thorough() { 2 } else { 1 }, emit_cases: emit, synth: 0 });
+            }
+        };
+        let mut probes: Vec<(&str, &'static LayoutCfg, &str, bool)> = vec![];
+        probes.extend(FUSION_PROBES.iter().map(|(d, s)| (*d, &LAYOUT_CFGS[0], *s, false)));
+        probes.extend(CFG_PROBES.iter().map(|(d, c, s)| (*d, layout_cfg_by_name(c), *s, false)));
+        probes.extend(SIBLING_PROBES.iter().map(|(d, s)| (*d, &LAYOUT_CFGS[0], *s, true)));
+        for (d, cfg, sql, sibling) in probes {
+            if !DIALECTS.contains(&d) {
+                continue;
+            }
+            let gl = gen_linters.entry(d.to_string()).or_insert_with(|| mk_linter(d, "layout", &LAYOUT_CFGS[0]));
+            let Ok(toks) = lex_tokens(gl, sql) else { continue };
+            let g = gapped(&toks);
+            if sibling {
+                push(&mut items, &mut rng, "probe", 0, d, cfg, sql.to_string(), 1);
+            }
+            // (a) every single-gap deviation of every probe
+            for v in g.vary1(&g.all_gaps()) {
+                push(&mut items, &mut rng, "gap1", 0, d, cfg, v, 3);
+            }
+            // ... and the separator gaps of the sibling probes again under the configurations that move
+            // commas, operators and trailing comments (the rules' hand-written branches on them)
+            if sibling {
+                for name in ["comma-leading", "operator-trailing", "maxlen20-after"] {
+                    let c = layout_cfg_by_name(name);
+                    push(&mut items, &mut rng, "probe", 0, d, c, sql.to_string(), 0);
+                    for v in g.vary1(&g.separator_gaps()) {
+                        push(&mut items, &mut rng, "gap1", 0, d, c, v, 0);
+                    }
+                }
+            }
+            // (b) every two-gap deviation over the separator gaps of the sibling probes
+            if sibling {
+                for v in g.vary2(&g.separator_gaps()) {
+                    if args.thorough() || rng.chance(1, 4) {
+                        push(&mut items, &mut rng, "gap2", 1, d, cfg, v, if args.thorough() { 3 } else { 0 });
+                    }
+                }
+            }
+        }
+        // (c) the layout rules' own fixture snippets (they reach each rule's fix paths), as they are and
+        // with single-gap deviations: 40 out of all gaps (thorough) / 4 at separator gaps (quick)
+        let gl = gen_linters.entry("ansi".to_string()).or_insert_with(|| mk_linter("ansi", "layout", &LAYOUT_CFGS[0]));
+        for (file, sql) in rule_snippets() {
+            if !file.starts_with("LT") || sql.len() > 700 {
+                continue;
+            }
+            let sql = if sql.ends_with('\n') { sql } else { format!("{}\n", sql) };
+            let Ok(toks) = lex_tokens(gl, &sql) else { continue };
+            let g = gapped(&toks);
+            push(&mut items, &mut rng, "rule-snippet", 2, "ansi", &LAYOUT_CFGS[0], sql.clone(), 2);
+            let mut vs = if args.thorough() { g.vary1(&g.all_gaps()) } else { g.vary1(&g.separator_gaps()) };
+            rng.shuffle(&mut vs);
+            vs.truncate(if args.thorough() { 40 } else { 4 });
+            for v in vs {
+                push(&mut items, &mut rng, "gap1-snippet", 2, "ansi", &LAYOUT_CFGS[0], v, 4);
+            }
+        }
     }
-    out.stat(json!({"items": items.len(), "layout_cfgs": LAYOUT_CFGS.iter().map(|c| c.name).collect::<Vec<_>>()}));
-    par_run(&mut out, &items, Linters::new, run_one);
+    let mut by_cls: std::collections::BTreeMap<&str, usize> = Default::default();
+    for it in &items {
+        *by_cls.entry(it.cls).or_default() += 1;
+    }
+    if chunk.is_none() {
+        // the cheap re-selection of rules must give the rule pack a linter configured from source text has
+        let codes = |l: &Linter| l.rules().iter().map(|r| r.code()).collect::<Vec<_>>();
+        let mut b = Buf::default();
+        for (d, sel) in [("ansi", "LT08"), ("bigquery", "LT01,LT09"), ("ansi", "layout")] {
+            let base = mk_linter(d, "layout", &LAYOUT_CFGS[3]);
+            let want = codes(&mk_linter(d, sel, &LAYOUT_CFGS[3]));
+            let got = codes(&with_rules(&base, sel));
+            let expect_n = if sel == "layout" { LAYOUT_RULES.len() } else { sel.split(',').count() };
+            b.hyp("selection_equals_configured", "blocking", want == got && got.len() == expect_n && (sel != "layout" || got == LAYOUT_RULES), json!({"dialect": d, "rules": sel, "configured": want, "reselected": got}));
+        }
+        out.absorb(b);
+    }
+    out.stat(json!({"items": items.len(), "items_by_class": by_cls, "layout_cfgs": LAYOUT_CFGS.iter().map(|c| c.name).collect::<Vec<_>>()}));
+    if let Some((k, n)) = chunk {
+        // child process: run every n-th item and hand the raw result lines to the parent
+        use std::io::Write as _;
+        let idx: Vec<usize> = (0..items.len()).filter(|i| i % n == k).collect();
+        let bufs = run_items(&items, &idx);
+        let mut w = std::io::BufWriter::new(std::fs::File::create(&args.out).expect("create chunk out"));
+        for (i, b) in idx.iter().zip(bufs) {
+            for l in b.lines {
+                writeln!(w, "{}", json!({"i": i, "l": l})).unwrap();
+            }
+        }
+        w.flush().unwrap();
+        return;
+    }
+    // Linting leaks memory in the library (about 80 KB per call on a two-line input, 150 KB with fix;
+    // measured 2026-10-01: resident size grows linearly over repeated `lint_string` calls, parse alone
+    // does not): the items are run by a sequence of child processes so that the peak stays bounded.
+    let n_chunks: usize = if replaying {
+        1
+    } else {
+        std::env::var("SQV_C06_CHUNKS").ok().and_then(|s| s.parse().ok()).unwrap_or(if args.thorough() { 24 } else { 4 }).max(1)
+    };
+    if n_chunks == 1 {
+        par_run(&mut out, &items, St::default, run_one);
+    } else {
+        let exe = std::env::current_exe().expect("current_exe");
+        let mut all: Vec<Vec<Value>> = (0..items.len()).map(|_| vec![]).collect();
+        for k in 0..n_chunks {
+            let tmp = format!("{}.chunk{}", args.out.display(), k);
+            let status = std::process::Command::new(&exe)
+                .args(["c06", "--tier", &args.tier, "--seed", &args.seed.to_string(), "--out", &tmp, "--chunk", &format!("{}/{}", k, n_chunks)])
+                .status();
+            if !status.map(|s| s.success()).unwrap_or(false) {
+                eprintln!("c06: chunk {}/{} failed", k, n_chunks);
+                std::process::exit(1);
+            }
+            let text = std::fs::read_to_string(&tmp).expect("read chunk out");
+            for line in text.lines() {
+                let mut v: Value = serde_json::from_str(line).expect("chunk line");
+                let i = v["i"].as_u64().expect("chunk index") as usize;
+                all[i].push(v["l"].take());
+            }
+            let _ = std::fs::remove_file(&tmp);
+        }
+        for lines in all {
+            out.absorb(Buf { lines });
+        }
+    }
     out.finish();
+}
+
+/// `par_run` without an `Out`: the buffers of the items `idx`, in that order.
+fn run_items(items: &[Item], idx: &[usize]) -> Vec<Buf> {
+    let threads = std::env::var("SQV_THREADS").ok().and_then(|s| s.parse().ok()).unwrap_or(16usize).max(1);
+    let n = idx.len();
+    let next = std::sync::atomic::AtomicUsize::new(0);
+    let results: std::sync::Mutex<Vec<Option<Buf>>> = std::sync::Mutex::new((0..n).map(|_| None).collect());
+    std::thread::scope(|sc| {
+        for _ in 0..threads.min(n.max(1)) {
+            sc.spawn(|| {
+                let mut st = St::default();
+                loop {
+                    let j = next.fetch_add(1, std::sync::atomic::Ordering::SeqCst);
+                    if j >= n {
+                        break;
+                    }
+                    let mut buf = Buf::default();
+                    run_one(&mut st, &items[idx[j]], &mut buf);
+                    results.lock().unwrap()[j] = Some(buf);
+                }
+            });
+        }
+    });
+    results.into_inner().unwrap().into_iter().map(|b| b.unwrap_or_default()).collect()
 }
